@@ -26,7 +26,8 @@ theorem facts_ok :
     Facts.C12.sizeAccumulatedBeforeGuard = true ∧ Facts.C12.sizeGuardBeforeInflate = true ∧
     Facts.C12.openErrCleanup = true ∧ Facts.C12.dupReplaces = true ∧
     Facts.C12.closeRemovesTemp = true ∧ Facts.C12.deleteSheetDeletesPkg = true ∧
-    Facts.C12.deleteSheetDropsTemp = false ∧ Facts.C12.readBytesPromotes = true ∧
+    Facts.C12.deleteSheetDropsTemp = true ∧ Facts.C12.deleteSheetRemovesFile = true ∧
+    Facts.C12.zipTempBranchSkipsStreams = true ∧ Facts.C12.readBytesPromotes = true ∧
     Facts.C12.zipTempBranchViaReadBytes = true ∧ Facts.C12.saveFileListPrependsHeader = true ∧
     Facts.C12.sstLoaderPromotesThenRemoves = true ∧
     Facts.C12.loaderBeforeReader.all (·.2) = true ∧
@@ -229,9 +230,23 @@ theorem open_R (l : Limits) (es : List Entry) (st : St) (h : openReader l es = .
   refine ⟨open_establishes_inv l es st h, fun n _ => open_refines_map l es st h n, hfl.1, hfl.2.1, Or.inl hfl.2.2, ?_⟩
   intro hd; rw [hfl.2.1] at hd; cases hd
 
+/-- after open only worksheets and the shared strings part can sit in tempFiles -/
+theorem open_named (l : Limits) (es : List Entry) (st : St) (h : openReader l es = .ok st) : Named st := by
+  unfold openReader at h
+  cases hc : checkOptions l with
+  | none => simp [hc] at h
+  | some l' =>
+    simp only [hc] at h
+    have nm := readZip_named l' es {} 0 0 (fun k hk => by simp [AMap.load] at hk)
+    cases hr : readZip l' {} 0 0 es with
+    | ok s w => rw [hr] at h nm; injection h with h; subst h; exact nm
+    | sizeErr s => rw [hr] at h; simp at h
+    | readErr s => rw [hr] at h; simp at h
+    | panic s => rw [hr] at h; cases h
+
 /-- `store_refines_map`: for every package, every admissible limit pair and **every** history of
 modelled operations (promoting reads, worksheet reads, flushes, streaming reads, shared-string
-reader / index file / loader / first string write, saves — in any number and order) the two-tier
+reader / index file / loader / first string write, saves, and — after the repair of DeleteSheet — sheet deletions, in any number and order) the two-tier
 store stays a refinement of the limit-free plain-map machine: after the history each part reads
 as the plain map says, and every read along the way returned the bytes the plain map returns.
 Hypotheses (`AdmAll`, stated on the plain-map run, hence independent of the limits): part names
@@ -243,7 +258,7 @@ theorem store_refines_map (l : Limits) (es : List Entry) (st : St) (h : openRead
     R (run st ops).1 (Spec.run { m := Spec.parts es [] } ops).1 ∧
     (∀ n, n ≠ sstKey → absAt (run st ops).1 n = AMap.load (Spec.run { m := Spec.parts es [] } ops).1.m n) ∧
     outsOk (run st ops).2 (Spec.run { m := Spec.parts es [] } ops).2 := by
-  have rr := run_refines ops (open_R l es st h) adm
+  have rr := run_refines ops (open_R l es st h) (open_named l es st h) adm
   exact ⟨rr.1, rr.1.abs, rr.2⟩
 
 /-- the blobs returned by the reads of a history -/
@@ -325,32 +340,47 @@ theorem first_write_after_numeric_read :
 
 /-! ## DeleteSheet after a spilled open -/
 
-/-- `close_cleans` over histories with sheet deletions: DeleteSheet (`Op.forget`) keeps the tempFiles
-entry of a spilled worksheet (fact `deleteSheetDropsTemp = false`), so the file stays referenced and
-Close removes it — for every package, limit pair and history in which deletions are interleaved with
-all other modelled operations.  (A DeleteSheet that drops the entry without removing the file breaks
-the invariant: the fact flips and this proof fails.) -/
+/-- `close_cleans` over histories with sheet deletions: the repaired DeleteSheet (`Op.forget`)
+deletes the tempFiles entry of a spilled worksheet **and** removes its file (facts
+`deleteSheetDropsTemp`, `deleteSheetRemovesFile`), which keeps the accounting invariant, so Close
+leaves nothing — for every package, limit pair and history in which deletions are interleaved with
+all other modelled operations.  (Dropping the entry without removing the file — seeded change
+C12d/2 — flips the second fact and breaks `forget_inv`.) -/
 theorem close_cleans_with_deletes (l : Limits) (es : List Entry) (st : St) (h : openReader l es = .ok st)
     (ops1 ops2 : List Op) (n rels : String) :
     (close (run st (ops1 ++ [.forget n rels] ++ ops2)).1).1.disk = [] :=
   (close_cleans l es st h (ops1 ++ [.forget n rels] ++ ops2)).1
 
-/-- finding (open, code frozen): DeleteSheet is *not* limit-independent at the package level. The
-part of a worksheet that was spilled at open survives DeleteSheet (it is still delivered by
-readBytes and written by the temp branch of writeToZip), whereas under the default limits it is
-gone.  Reproduced on the real code by the oracle signature
-`saved-package:deleted-spilled-sheet-part-survives`. -/
-theorem finding_deleted_spilled_part_survives :
+/-- DeleteSheet is limit-independent after the repair (was `finding_deleted_spilled_part_survives`):
+the part of a deleted worksheet is gone whether it was spilled at open or not, and the file of the
+spilled one is removed at once -/
+theorem deleted_part_gone_under_every_limit :
     ∃ s1 s2,
       openReader ⟨10, 0⟩ [⟨"xl/worksheets/sheet1.xml", 100, false, .none, ⟨"a", 100⟩⟩,
                           ⟨"xl/worksheets/sheet2.xml", 5, false, .none, ⟨"b", 5⟩⟩] = .ok s1 ∧
       openReader ⟨0, 0⟩ [⟨"xl/worksheets/sheet1.xml", 100, false, .none, ⟨"a", 100⟩⟩,
                          ⟨"xl/worksheets/sheet2.xml", 5, false, .none, ⟨"b", 5⟩⟩] = .ok s2 ∧
+      s1.disk.length = 1 ∧
+      (step s1 (.forget "xl/worksheets/sheet1.xml" "xl/worksheets/_rels/sheet1.xml.rels")).1.disk.length = 0 ∧
       absAt (step s1 (.forget "xl/worksheets/sheet1.xml" "xl/worksheets/_rels/sheet1.xml.rels")).1
-        "xl/worksheets/sheet1.xml" = some ⟨"a", 100⟩ ∧
+        "xl/worksheets/sheet1.xml" = none ∧
       absAt (step s2 (.forget "xl/worksheets/sheet1.xml" "xl/worksheets/_rels/sheet1.xml.rels")).1
         "xl/worksheets/sheet1.xml" = none := by
-  refine ⟨_, _, rfl, rfl, ?_, ?_⟩ <;> decide
+  refine ⟨_, _, rfl, rfl, ?_, ?_, ?_, ?_⟩ <;> decide
+
+/-- the admissibility hypothesis of `store_refines_map` is inhabited by a history that deletes a
+spilled worksheet between a read and a save -/
+theorem nonvacuous_history_with_delete :
+    AdmAll ⟨Spec.parts
+      [⟨"xl/worksheets/sheet1.xml", 100, false, .none, ⟨"a", 100⟩⟩,
+       ⟨"xl/worksheets/sheet2.xml", 100, false, .none, ⟨"b", 100⟩⟩] [], [], false, false⟩
+      [.wsRead "xl/worksheets/sheet2.xml", .forget "xl/worksheets/sheet1.xml" "xl/worksheets/_rels/sheet1.xml.rels",
+       .sstSet, .save [("xl/worksheets/sheet2.xml", ⟨"b2", 120⟩)] ⟨"s2", 60⟩ []] := by
+  have k : "xl/worksheets/sheet2.xml" ≠ sstKey := by decide
+  refine ⟨k, ⟨by decide, by decide, by decide, by decide, by decide, by decide⟩, trivial, ⟨?_, ?_, by decide, ?_⟩, trivial⟩
+  · intro p hp; simp at hp; subst hp; decide
+  · intro p hp; cases hp
+  · intro hd; exact absurd hd (by decide)
 
 /-! ## non-vacuity -/
 
